@@ -35,7 +35,6 @@ var infraExtPrefixes = []string{
 	"io.", "os.",
 	"github.com/oxia-db/oxia/proto.", // generated (un)marshalling of stored entries
 	"proto.",
-	"google.golang.org/protobuf",
 	"github.com/edsrzf/mmap-go",
 }
 
@@ -53,6 +52,9 @@ func classifyOrigin(o ir.ErrOrigin) (string, string) {
 			if strings.HasPrefix(o.Name, p) {
 				return "forbidden", "parse of request-/key-derived text (" + o.Name + ")"
 			}
+		}
+		if strings.HasPrefix(o.Name, "google.golang.org/protobuf") {
+			return "forbidden", "the reflection-based protobuf codec (" + o.Name + ") rejects string fields that are not valid UTF-8, while requests and log entries are decoded with the generated UnmarshalVT, which accepts them: a request carrying such a key or value is logged and then fails here"
 		}
 		for _, p := range infraExtPrefixes {
 			if strings.HasPrefix(o.Name, p) {
